@@ -58,5 +58,5 @@ Example C17_history :
   snd (run [] [Create true 1 true (Some 0) 2%Z 0%Z; Insert 1 (Some [mk]); Ids 1; Update 1 (Some 5) (Some 3);
                DeleteRec 1 (Some 6); Insert 2 (Some [mk]); Search 1 true true false true true 0%Z false 0 0; Drop 1; Ids 1])
   = [Resp 201 BNone; Resp 201 BNone; Resp 200 (BIds [5]); Resp 200 BNone; Resp 404 BNone; Resp 404 BNone;
-     Resp 200 (BIds [5]); Resp 200 BNone; Resp 404 BNone].
+     Resp 200 (BDocs [(5, 3)]); Resp 200 BNone; Resp 404 BNone].
 Proof. vm_compute. reflexivity. Qed.
